@@ -205,14 +205,10 @@ Definition is_oct (d : pt) : bool :=
 Definition wr_plist (pref : N) (pts : list pt) : list N :=
   let ds := deltas (0, 0)%Z pts in
   let n := enc_uint (N.of_nat (length pts)) in
-  match pref with
-  | 2 => if forallb is_manh ds then 2 :: n ++ flat_map (fun d => enc_2delta (fst d) (snd d)) ds
-         else 4 :: n ++ flat_map wr_g ds
-  | 3 => if forallb is_oct ds then 3 :: n ++ flat_map (fun d => enc_3delta (fst d) (snd d)) ds
-         else 4 :: n ++ flat_map wr_g ds
-  | 5 => 5 :: n ++ flat_map wr_g (deltas (0, 0)%Z ds)
-  | _ => 4 :: n ++ flat_map wr_g ds
-  end.
+  if (pref =? 2) && forallb is_manh ds then 2 :: n ++ flat_map (fun d => enc_2delta (fst d) (snd d)) ds
+  else if (pref =? 3) && forallb is_oct ds then 3 :: n ++ flat_map (fun d => enc_3delta (fst d) (snd d)) ds
+  else if pref =? 5 then 5 :: n ++ flat_map wr_g (deltas (0, 0)%Z ds)
+  else 4 :: n ++ flat_map wr_g ds.
 
 (* ------------------------------------------------------------------ properties *)
 Inductive pval :=
@@ -860,141 +856,167 @@ Definition eext (c : choice) (wantm : bool) (hw : N) (mv : option Z) (v : Z) : N
   else if c_alt c && (v =? Z.of_N hw)%Z then (2, [])
   else (3, enc_int v).
 
+(* record bodies (everything after the record byte) and the modal state after the record; [m] already carries
+   the xy-mode the record is written in *)
+Definition body_rect (c : choice) (m : modal) (l d w h : N) (x y : Z) (r : option srep) : list N * modal :=
+  let g := m_g m in
+  let sq := c_alt c && (w =? h) in
+  let fl := efld N.eqb (want c 0) (g_layer g) l enc_uint in
+  let fd := efld N.eqb (want c 1) (g_dtype g) d enc_uint in
+  let fw := efld N.eqb (want c 6) (g_w g) w enc_uint in
+  let fh := if sq then (false, []) else efld N.eqb (want c 5) (g_h g) h enc_uint in
+  let fx := epos (want c 4) (m_abs m) (g_x g) x in
+  let fy := epos (want c 3) (m_abs m) (g_y g) y in
+  let fr := erep c (m_rep m) r in
+  (mkinfo sq (fst fw) (fst fh) (fst fx) (fst fy) (fst fr) (fst fd) (fst fl) ::
+     snd fl ++ snd fd ++ snd fw ++ snd fh ++ snd fx ++ snd fy ++ snd fr,
+   set_g m (mkG (Some l) (Some d) x y (Some w) (Some h) (g_poly g) (g_path g) (g_hw g) (g_exs g) (g_exe g)
+                (g_ctype g) (g_rad g)) (new_rep (m_rep m) r)).
+
+Definition body_poly (c : choice) (m : modal) (l d : N) (pts : list pt) (x y : Z) (r : option srep) : list N * modal :=
+  let g := m_g m in
+  let fl := efld N.eqb (want c 0) (g_layer g) l enc_uint in
+  let fd := efld N.eqb (want c 1) (g_dtype g) d enc_uint in
+  let fp := efld (list_eqb pt_eqb) (want c 5) (g_poly g) pts (wr_plist (c_plist c)) in
+  let fx := epos (want c 4) (m_abs m) (g_x g) x in
+  let fy := epos (want c 3) (m_abs m) (g_y g) y in
+  let fr := erep c (m_rep m) r in
+  (mkinfo false false (fst fp) (fst fx) (fst fy) (fst fr) (fst fd) (fst fl) ::
+     snd fl ++ snd fd ++ snd fp ++ snd fx ++ snd fy ++ snd fr,
+   set_g m (mkG (Some l) (Some d) x y (g_w g) (g_h g) (Some pts) (g_path g) (g_hw g) (g_exs g) (g_exe g)
+                (g_ctype g) (g_rad g)) (new_rep (m_rep m) r)).
+
+Definition body_path (c : choice) (m : modal) (l d hw : N) (es ee : Z) (pts : list pt) (x y : Z) (r : option srep)
+  : list N * modal :=
+  let g := m_g m in
+  let fl := efld N.eqb (want c 0) (g_layer g) l enc_uint in
+  let fd := efld N.eqb (want c 1) (g_dtype g) d enc_uint in
+  let fw := efld N.eqb (want c 6) (g_hw g) hw enc_uint in
+  let xs := eext c (want c 7) hw (g_exs g) es in
+  let xe := eext c (want c 7) hw (g_exe g) ee in
+  let whole := (fst xs =? 0) && (fst xe =? 0) in          (* both modal: drop the scheme byte altogether *)
+  let fe := if whole then (false, []) else (true, (fst xs * 4 + fst xe) :: snd xs ++ snd xe) in
+  let fp := efld (list_eqb pt_eqb) (want c 5) (g_path g) pts (wr_plist (c_plist c)) in
+  let fx := epos (want c 4) (m_abs m) (g_x g) x in
+  let fy := epos (want c 3) (m_abs m) (g_y g) y in
+  let fr := erep c (m_rep m) r in
+  (mkinfo (fst fe) (fst fw) (fst fp) (fst fx) (fst fy) (fst fr) (fst fd) (fst fl) ::
+     snd fl ++ snd fd ++ snd fw ++ snd fe ++ snd fp ++ snd fx ++ snd fy ++ snd fr,
+   set_g m (mkG (Some l) (Some d) x y (g_w g) (g_h g) (g_poly g) (Some pts) (Some hw) (Some es) (Some ee)
+                (g_ctype g) (g_rad g)) (new_rep (m_rep m) r)).
+
+Definition trap_code (c : choice) (da db : Z) : N :=
+  if c_alt c && (db =? 0)%Z then 24 else if c_alt c && (da =? 0)%Z then 25 else 23.
+Definition body_trap (c : choice) (m : modal) (vert : bool) (l d w h : N) (da db : Z) (x y : Z) (r : option srep)
+  : list N * modal :=
+  let g := m_g m in
+  let code := trap_code c da db in
+  let fl := efld N.eqb (want c 0) (g_layer g) l enc_uint in
+  let fd := efld N.eqb (want c 1) (g_dtype g) d enc_uint in
+  let fw := efld N.eqb (want c 6) (g_w g) w enc_uint in
+  let fh := efld N.eqb (want c 5) (g_h g) h enc_uint in
+  let fx := epos (want c 4) (m_abs m) (g_x g) x in
+  let fy := epos (want c 3) (m_abs m) (g_y g) y in
+  let fr := erep c (m_rep m) r in
+  (mkinfo vert (fst fw) (fst fh) (fst fx) (fst fy) (fst fr) (fst fd) (fst fl) ::
+     snd fl ++ snd fd ++ snd fw ++ snd fh ++
+     (if code =? 25 then [] else enc_int da) ++ (if code =? 24 then [] else enc_int db) ++
+     snd fx ++ snd fy ++ snd fr,
+   set_g m (mkG (Some l) (Some d) x y (Some w) (Some h) (g_poly g) (g_path g) (g_hw g) (g_exs g) (g_exe g)
+                (g_ctype g) (g_rad g)) (new_rep (m_rep m) r)).
+
+Definition body_ctrap (c : choice) (m : modal) (l d ty w h : N) (x y : Z) (r : option srep) : list N * modal :=
+  let g := m_g m in
+  let fl := efld N.eqb (want c 0) (g_layer g) l enc_uint in
+  let fd := efld N.eqb (want c 1) (g_dtype g) d enc_uint in
+  let ft := efld N.eqb (want c 7) (g_ctype g) ty enc_uint in
+  let fw := if ctrap_uses_w ty then efld N.eqb (want c 6) (g_w g) w enc_uint else (false, []) in
+  let fh := if ctrap_uses_h ty then efld N.eqb (want c 5) (g_h g) h enc_uint else (false, []) in
+  let fx := epos (want c 4) (m_abs m) (g_x g) x in
+  let fy := epos (want c 3) (m_abs m) (g_y g) y in
+  let fr := erep c (m_rep m) r in
+  (mkinfo (fst ft) (fst fw) (fst fh) (fst fx) (fst fy) (fst fr) (fst fd) (fst fl) ::
+     snd fl ++ snd fd ++ snd ft ++ snd fw ++ snd fh ++ snd fx ++ snd fy ++ snd fr,
+   set_g m (mkG (Some l) (Some d) x y (Some w) (Some h) (g_poly g) (g_path g)
+                (g_hw g) (g_exs g) (g_exe g) (Some ty) (g_rad g)) (new_rep (m_rep m) r)).
+
+Definition body_circle (c : choice) (m : modal) (l d rad : N) (x y : Z) (r : option srep) : list N * modal :=
+  let g := m_g m in
+  let fl := efld N.eqb (want c 0) (g_layer g) l enc_uint in
+  let fd := efld N.eqb (want c 1) (g_dtype g) d enc_uint in
+  let fc := efld N.eqb (want c 5) (g_rad g) rad enc_uint in
+  let fx := epos (want c 4) (m_abs m) (g_x g) x in
+  let fy := epos (want c 3) (m_abs m) (g_y g) y in
+  let fr := erep c (m_rep m) r in
+  (mkinfo false false (fst fc) (fst fx) (fst fy) (fst fr) (fst fd) (fst fl) ::
+     snd fl ++ snd fd ++ snd fc ++ snd fx ++ snd fy ++ snd fr,
+   set_g m (mkG (Some l) (Some d) x y (g_w g) (g_h g) (g_poly g) (g_path g) (g_hw g) (g_exs g) (g_exe g)
+                (g_ctype g) (Some rad)) (new_rep (m_rep m) r)).
+
+Definition body_text (c : choice) (m : modal) (s : nref) (l t : N) (x y : Z) (r : option srep) : list N * modal :=
+  let tm := m_t m in
+  let fs := efld nref_eqb (want c 6) (t_str tm) s wr_nref in
+  let fl := efld N.eqb (want c 0) (t_layer tm) l enc_uint in
+  let ft := efld N.eqb (want c 1) (t_type tm) t enc_uint in
+  let fx := epos (want c 4) (m_abs m) (t_x tm) x in
+  let fy := epos (want c 3) (m_abs m) (t_y tm) y in
+  let fr := erep c (m_rep m) r in
+  (mkinfo false (fst fs) (nref_is_num s) (fst fx) (fst fy) (fst fr) (fst ft) (fst fl) ::
+     snd fs ++ snd fl ++ snd ft ++ snd fx ++ snd fy ++ snd fr,
+   mkM (m_abs m) (new_rep (m_rep m) r) (m_g m) (mkT (Some s) (Some l) (Some t) x y) (m_p m) (m_pname m) (m_pvals m)).
+
+Definition place_code (tr : ptrans) : N := match tr with PT_quarter _ => 17 | PT_general _ _ => 18 end.
+Definition body_place (c : choice) (m : modal) (cl : nref) (tr : ptrans) (flip : bool) (x y : Z) (r : option srep)
+  : list N * modal :=
+  let pm := m_p m in
+  let fc := efld nref_eqb (want c 7) (p_cell pm) cl wr_nref in
+  let fx := epos (want c 5) (m_abs m) (p_x pm) x in
+  let fy := epos (want c 4) (m_abs m) (p_y pm) y in
+  let fr := erep c (m_rep m) r in
+  (match tr with
+   | PT_quarter aa =>
+       mkinfo (fst fc) (nref_is_num cl) (fst fx) (fst fy) (fst fr) (N.testbit aa 1) (N.testbit aa 0) flip ::
+         snd fc ++ snd fx ++ snd fy ++ snd fr
+   | PT_general mag ang =>
+       mkinfo (fst fc) (nref_is_num cl) (fst fx) (fst fy) (fst fr)
+              (match mag with Some _ => true | None => false end)
+              (match ang with Some _ => true | None => false end) flip ::
+         snd fc ++ (match mag with Some v => wr_real v | None => [] end) ++
+         (match ang with Some v => wr_real v | None => [] end) ++ snd fx ++ snd fy ++ snd fr
+   end,
+   mkM (m_abs m) (new_rep (m_rep m) r) (m_g m) (m_t m) (mkP (Some cl) x y) (m_pname m) (m_pvals m)).
+
+(* the modal position an element kind is placed against *)
+Definition elem_mpos (m : modal) (e : element) : Z * Z :=
+  match e with
+  | E_text _ _ _ _ _ _ => (t_x (m_t m), t_y (m_t m))
+  | E_place _ _ _ _ _ _ => (p_x (m_p m), p_y (m_p m))
+  | _ => (g_x (m_g m), g_y (m_g m))
+  end.
+Definition elem_xy (e : element) : Z * Z :=
+  match e with
+  | E_rect _ _ _ _ x y _ | E_poly _ _ _ x y _ | E_path _ _ _ _ _ _ x y _ | E_trap _ _ _ _ _ _ _ x y _
+  | E_ctrap _ _ _ _ _ x y _ | E_circle _ _ _ x y _ | E_text _ _ _ x y _ | E_place _ _ _ x y _ => (x, y)
+  end.
+(* record byte and body of an element *)
+Definition elem_record (c : choice) (m : modal) (e : element) : N * (list N * modal) :=
+  match e with
+  | E_rect l d w h x y r => (20, body_rect c m l d w h x y r)
+  | E_poly l d pts x y r => (21, body_poly c m l d pts x y r)
+  | E_path l d hw es ee pts x y r => (22, body_path c m l d hw es ee pts x y r)
+  | E_trap v l d w h da db x y r => (trap_code c da db, body_trap c m v l d w h da db x y r)
+  | E_ctrap l d ty w h x y r => (26, body_ctrap c m l d ty w h x y r)
+  | E_circle l d rad x y r => (27, body_circle c m l d rad x y r)
+  | E_text s l t x y r => (19, body_text c m s l t x y r)
+  | E_place cl tr f x y r => (place_code tr, body_place c m cl tr f x y r)
+  end.
+
 (* one element -> its records (each a byte list starting with the record byte) and the modal state after *)
 Definition enc_element (c : choice) (m0 : modal) (e : element) : list (list N) * modal :=
-  match e with
-  | E_rect l d w h x y r =>
-      let rel := use_rel c (g_x (m_g m0)) (g_y (m_g m0)) x y in
-      let m := with_mode m0 rel in let g := m_g m in
-      let sq := c_alt c && (w =? h) in
-      let fl := efld N.eqb (want c 0) (g_layer g) l enc_uint in
-      let fd := efld N.eqb (want c 1) (g_dtype g) d enc_uint in
-      let fw := efld N.eqb (want c 6) (g_w g) w enc_uint in
-      let fh := if sq then (false, []) else efld N.eqb (want c 5) (g_h g) h enc_uint in
-      let fx := epos (want c 4) (m_abs m) (g_x g) x in
-      let fy := epos (want c 3) (m_abs m) (g_y g) y in
-      let fr := erep c (m_rep m) r in
-      (mode_records m0 rel ++
-       [20 :: mkinfo sq (fst fw) (fst fh) (fst fx) (fst fy) (fst fr) (fst fd) (fst fl) ::
-           snd fl ++ snd fd ++ snd fw ++ snd fh ++ snd fx ++ snd fy ++ snd fr],
-       set_g m (mkG (Some l) (Some d) x y (Some w) (Some h) (g_poly g) (g_path g) (g_hw g) (g_exs g) (g_exe g)
-                    (g_ctype g) (g_rad g)) (new_rep (m_rep m) r))
-  | E_poly l d pts x y r =>
-      let rel := use_rel c (g_x (m_g m0)) (g_y (m_g m0)) x y in
-      let m := with_mode m0 rel in let g := m_g m in
-      let fl := efld N.eqb (want c 0) (g_layer g) l enc_uint in
-      let fd := efld N.eqb (want c 1) (g_dtype g) d enc_uint in
-      let fp := efld (list_eqb pt_eqb) (want c 5) (g_poly g) pts (wr_plist (c_plist c)) in
-      let fx := epos (want c 4) (m_abs m) (g_x g) x in
-      let fy := epos (want c 3) (m_abs m) (g_y g) y in
-      let fr := erep c (m_rep m) r in
-      (mode_records m0 rel ++
-       [21 :: mkinfo false false (fst fp) (fst fx) (fst fy) (fst fr) (fst fd) (fst fl) ::
-           snd fl ++ snd fd ++ snd fp ++ snd fx ++ snd fy ++ snd fr],
-       set_g m (mkG (Some l) (Some d) x y (g_w g) (g_h g) (Some pts) (g_path g) (g_hw g) (g_exs g) (g_exe g)
-                    (g_ctype g) (g_rad g)) (new_rep (m_rep m) r))
-  | E_path l d hw es ee pts x y r =>
-      let rel := use_rel c (g_x (m_g m0)) (g_y (m_g m0)) x y in
-      let m := with_mode m0 rel in let g := m_g m in
-      let fl := efld N.eqb (want c 0) (g_layer g) l enc_uint in
-      let fd := efld N.eqb (want c 1) (g_dtype g) d enc_uint in
-      let fw := efld N.eqb (want c 6) (g_hw g) hw enc_uint in
-      let xs := eext c (want c 7) hw (g_exs g) es in
-      let xe := eext c (want c 7) hw (g_exe g) ee in
-      let whole := (fst xs =? 0) && (fst xe =? 0) in          (* both modal: drop the scheme byte altogether *)
-      let fe := if whole then (false, []) else (true, (fst xs * 4 + fst xe) :: snd xs ++ snd xe) in
-      let fp := efld (list_eqb pt_eqb) (want c 5) (g_path g) pts (wr_plist (c_plist c)) in
-      let fx := epos (want c 4) (m_abs m) (g_x g) x in
-      let fy := epos (want c 3) (m_abs m) (g_y g) y in
-      let fr := erep c (m_rep m) r in
-      (mode_records m0 rel ++
-       [22 :: mkinfo (fst fe) (fst fw) (fst fp) (fst fx) (fst fy) (fst fr) (fst fd) (fst fl) ::
-           snd fl ++ snd fd ++ snd fw ++ snd fe ++ snd fp ++ snd fx ++ snd fy ++ snd fr],
-       set_g m (mkG (Some l) (Some d) x y (g_w g) (g_h g) (g_poly g) (Some pts) (Some hw) (Some es) (Some ee)
-                    (g_ctype g) (g_rad g)) (new_rep (m_rep m) r))
-  | E_trap vert l d w h da db x y r =>
-      let rel := use_rel c (g_x (m_g m0)) (g_y (m_g m0)) x y in
-      let m := with_mode m0 rel in let g := m_g m in
-      let code := if c_alt c && (db =? 0)%Z then 24 else if c_alt c && (da =? 0)%Z then 25 else 23 in
-      let fl := efld N.eqb (want c 0) (g_layer g) l enc_uint in
-      let fd := efld N.eqb (want c 1) (g_dtype g) d enc_uint in
-      let fw := efld N.eqb (want c 6) (g_w g) w enc_uint in
-      let fh := efld N.eqb (want c 5) (g_h g) h enc_uint in
-      let fx := epos (want c 4) (m_abs m) (g_x g) x in
-      let fy := epos (want c 3) (m_abs m) (g_y g) y in
-      let fr := erep c (m_rep m) r in
-      (mode_records m0 rel ++
-       [code :: mkinfo vert (fst fw) (fst fh) (fst fx) (fst fy) (fst fr) (fst fd) (fst fl) ::
-           snd fl ++ snd fd ++ snd fw ++ snd fh ++
-           (if code =? 25 then [] else enc_int da) ++ (if code =? 24 then [] else enc_int db) ++
-           snd fx ++ snd fy ++ snd fr],
-       set_g m (mkG (Some l) (Some d) x y (Some w) (Some h) (g_poly g) (g_path g) (g_hw g) (g_exs g) (g_exe g)
-                    (g_ctype g) (g_rad g)) (new_rep (m_rep m) r))
-  | E_ctrap l d ty w h x y r =>
-      let rel := use_rel c (g_x (m_g m0)) (g_y (m_g m0)) x y in
-      let m := with_mode m0 rel in let g := m_g m in
-      let fl := efld N.eqb (want c 0) (g_layer g) l enc_uint in
-      let fd := efld N.eqb (want c 1) (g_dtype g) d enc_uint in
-      let ft := efld N.eqb (want c 7) (g_ctype g) ty enc_uint in
-      let fw := if ctrap_uses_w ty then efld N.eqb (want c 6) (g_w g) w enc_uint else (false, []) in
-      let fh := if ctrap_uses_h ty then efld N.eqb (want c 5) (g_h g) h enc_uint else (false, []) in
-      let fx := epos (want c 4) (m_abs m) (g_x g) x in
-      let fy := epos (want c 3) (m_abs m) (g_y g) y in
-      let fr := erep c (m_rep m) r in
-      (mode_records m0 rel ++
-       [26 :: mkinfo (fst ft) (fst fw) (fst fh) (fst fx) (fst fy) (fst fr) (fst fd) (fst fl) ::
-           snd fl ++ snd fd ++ snd ft ++ snd fw ++ snd fh ++ snd fx ++ snd fy ++ snd fr],
-       set_g m (mkG (Some l) (Some d) x y (Some w) (Some h) (g_poly g) (g_path g)
-                    (g_hw g) (g_exs g) (g_exe g) (Some ty) (g_rad g)) (new_rep (m_rep m) r))
-  | E_circle l d rad x y r =>
-      let rel := use_rel c (g_x (m_g m0)) (g_y (m_g m0)) x y in
-      let m := with_mode m0 rel in let g := m_g m in
-      let fl := efld N.eqb (want c 0) (g_layer g) l enc_uint in
-      let fd := efld N.eqb (want c 1) (g_dtype g) d enc_uint in
-      let fc := efld N.eqb (want c 5) (g_rad g) rad enc_uint in
-      let fx := epos (want c 4) (m_abs m) (g_x g) x in
-      let fy := epos (want c 3) (m_abs m) (g_y g) y in
-      let fr := erep c (m_rep m) r in
-      (mode_records m0 rel ++
-       [27 :: mkinfo false false (fst fc) (fst fx) (fst fy) (fst fr) (fst fd) (fst fl) ::
-           snd fl ++ snd fd ++ snd fc ++ snd fx ++ snd fy ++ snd fr],
-       set_g m (mkG (Some l) (Some d) x y (g_w g) (g_h g) (g_poly g) (g_path g) (g_hw g) (g_exs g) (g_exe g)
-                    (g_ctype g) (Some rad)) (new_rep (m_rep m) r))
-  | E_text s l t x y r =>
-      let rel := use_rel c (t_x (m_t m0)) (t_y (m_t m0)) x y in
-      let m := with_mode m0 rel in let tm := m_t m in
-      let fs := efld nref_eqb (want c 6) (t_str tm) s wr_nref in
-      let fl := efld N.eqb (want c 0) (t_layer tm) l enc_uint in
-      let ft := efld N.eqb (want c 1) (t_type tm) t enc_uint in
-      let fx := epos (want c 4) (m_abs m) (t_x tm) x in
-      let fy := epos (want c 3) (m_abs m) (t_y tm) y in
-      let fr := erep c (m_rep m) r in
-      (mode_records m0 rel ++
-       [19 :: mkinfo false (fst fs) (nref_is_num s) (fst fx) (fst fy) (fst fr) (fst ft) (fst fl) ::
-           snd fs ++ snd fl ++ snd ft ++ snd fx ++ snd fy ++ snd fr],
-       mkM (m_abs m) (new_rep (m_rep m) r) (m_g m) (mkT (Some s) (Some l) (Some t) x y) (m_p m) (m_pname m) (m_pvals m))
-  | E_place cl tr flip x y r =>
-      let rel := use_rel c (p_x (m_p m0)) (p_y (m_p m0)) x y in
-      let m := with_mode m0 rel in let pm := m_p m in
-      let fc := efld nref_eqb (want c 7) (p_cell pm) cl wr_nref in
-      let fx := epos (want c 5) (m_abs m) (p_x pm) x in
-      let fy := epos (want c 4) (m_abs m) (p_y pm) y in
-      let fr := erep c (m_rep m) r in
-      let rec :=
-        match tr with
-        | PT_quarter aa =>
-            17 :: mkinfo (fst fc) (nref_is_num cl) (fst fx) (fst fy) (fst fr) (N.testbit aa 1) (N.testbit aa 0) flip ::
-               snd fc ++ snd fx ++ snd fy ++ snd fr
-        | PT_general mag ang =>
-            18 :: mkinfo (fst fc) (nref_is_num cl) (fst fx) (fst fy) (fst fr)
-                         (match mag with Some _ => true | None => false end)
-                         (match ang with Some _ => true | None => false end) flip ::
-               snd fc ++ (match mag with Some v => wr_real v | None => [] end) ++
-               (match ang with Some v => wr_real v | None => [] end) ++ snd fx ++ snd fy ++ snd fr
-        end in
-      (mode_records m0 rel ++ [rec],
-       mkM (m_abs m) (new_rep (m_rep m) r) (m_g m) (m_t m) (mkP (Some cl) x y) (m_pname m) (m_pvals m))
-  end.
+  let rel := use_rel c (fst (elem_mpos m0 e)) (snd (elem_mpos m0 e)) (fst (elem_xy e)) (snd (elem_xy e)) in
+  let m := with_mode m0 rel in
+  let '(code, (body, m')) := elem_record c m e in
+  (mode_records m0 rel ++ [code :: body], m').
 
 Fixpoint enc_elements (cs : nat -> choice) (k : nat) (m : modal) (es : list (element * list prop))
   : list (list N) * modal :=
